@@ -1,6 +1,8 @@
 package ops
 
 import (
+	"context"
+
 	"gorm.io/gorm"
 	"gorm.io/gorm/clause"
 
@@ -109,6 +111,8 @@ func Catalogue() []Op {
 		Run: func(db *gorm.DB) error {
 			return db.Save(&fam.User{ID: 2, Name: "u2x", Age: 21, CompanyID: ip(2)}).Error
 		}})
+	add(Op{Name: "save_missing_key", Kind: "update", Write: true, Main: "users", Expect: ex("User", "update", "n99"), SeqTx: true,
+		Run: func(db *gorm.DB) error { return db.Save(&fam.User{ID: 99, Name: "n99", Age: 9}).Error }})
 	add(Op{Name: "save_new", Kind: "create", Write: true, Main: "users", Expect: ex("User", "create", "n1"),
 		Run: func(db *gorm.DB) error { return db.Save(&fam.User{Name: "n1"}).Error }})
 	add(Op{Name: "updates_struct", Kind: "update", Write: true, Main: "users", Expect: ex("User", "update", "u1"),
@@ -258,6 +262,23 @@ func Catalogue() []Op {
 				return err
 			}
 			return db.Exec("UPDATE users SET age = age WHERE id = ?", 1).Error
+		}})
+
+	// ---- a chain value derived again with another context must not change the original's context
+	add(Op{Name: "ctx_derived_sibling", Kind: "update", Write: true, Main: "users", Expect: ex("User", "update", ""),
+		Run: func(db *gorm.DB) error {
+			q := db.Model(&fam.User{}).Where("id = ?", 1)
+			other := context.WithValue(context.Background(), ctxKey{}, "foreign-context")
+			_ = q.WithContext(other)
+			_ = q.Session(&gorm.Session{Context: other})
+			return q.Update("age", 55).Error
+		}})
+	add(Op{Name: "ctx_derived_sibling_read", Kind: "query", Main: "users", Expect: ex("User", "find", "u1"),
+		Run: func(db *gorm.DB) error {
+			q := db.Where("id = ?", 1)
+			_ = q.WithContext(context.WithValue(context.Background(), ctxKey{}, "foreign-context"))
+			var us []fam.User
+			return q.Find(&us).Error
 		}})
 
 	// ---- explicit transactions (C18: context at any nesting) ------------------------------
